@@ -6,6 +6,7 @@ import (
 	"github.com/edsrzf/mmap-go"
 	"io"
 	"os"
+	"sync"
 	"unsafe"
 )
 
@@ -16,6 +17,9 @@ const (
 )
 
 type MMap struct {
+	// 保护映射状态: 读取在映射不足时同样会重新映射, 而旧数据文件的读取不持有 DB 的锁,
+	// 会与其它读取以及 ResetFileSize (Backup) 并发. 读取持读锁, 任何改变映射的操作持写锁
+	mu          sync.RWMutex
 	file        *os.File
 	activeMap   mmap.MMap // 当前活动映射区域
 	endOff      int64     // 当前映射区域的右边界
@@ -49,13 +53,26 @@ func NewMMap(fileName string) (*MMap, error) {
 }
 
 func (m *MMap) Read(b []byte, offset int64) (int, error) {
+	m.mu.RLock()
+	defer m.mu.RUnlock()
 	// 检查边界
 	if offset >= m.virtualSize {
 		return 0, io.EOF
 	}
 
-	if err := m.remap(offset, len(b)); err != nil {
-		return 0, err
+	// 映射区域不足 (ResetFileSize 之后) 时需独占地重新映射; 重新获取读锁后再次检查
+	for offset+int64(len(b)) > m.endOff {
+		m.mu.RUnlock()
+		m.mu.Lock()
+		err := m.remap(offset, len(b))
+		m.mu.Unlock()
+		m.mu.RLock()
+		if err != nil {
+			return 0, err
+		}
+		if offset >= m.virtualSize {
+			return 0, io.EOF
+		}
 	}
 
 	// 计算实际可读范围
@@ -70,6 +87,8 @@ func (m *MMap) Read(b []byte, offset int64) (int, error) {
 }
 
 func (m *MMap) Write(b []byte) (int, error) {
+	m.mu.Lock()
+	defer m.mu.Unlock()
 	verifhook.IO("write", m.file.Name(), int64(len(b)))
 	if err := m.remap(m.virtualSize, len(b)); err != nil {
 		return 0, err
@@ -80,6 +99,8 @@ func (m *MMap) Write(b []byte) (int, error) {
 }
 
 func (m *MMap) Sync() error {
+	m.mu.Lock()
+	defer m.mu.Unlock()
 	verifhook.IO("sync", m.file.Name(), 0)
 	// 当前不存在映射时, 所有数据已在解除映射前刷新
 	if m.activeMap == nil {
@@ -89,19 +110,30 @@ func (m *MMap) Sync() error {
 }
 
 func (m *MMap) Close() error {
+	m.mu.Lock()
+	defer m.mu.Unlock()
 	verifhook.IO("close", m.file.Name(), m.virtualSize)
-	// ResetFileSize 会刷新并解除映射
-	if err := m.ResetFileSize(); err != nil {
+	// resetFileSize 会刷新并解除映射
+	if err := m.resetFileSize(); err != nil {
 		return err
 	}
 	return m.file.Close()
 }
 
 func (m *MMap) Size() (int64, error) {
+	m.mu.RLock()
+	defer m.mu.RUnlock()
 	return m.virtualSize, nil
 }
 
 func (m *MMap) ResetFileSize() error {
+	m.mu.Lock()
+	defer m.mu.Unlock()
+	return m.resetFileSize()
+}
+
+// 调用方需持有写锁
+func (m *MMap) resetFileSize() error {
 	verifhook.IO("truncate", m.file.Name(), m.virtualSize)
 	// 文件截断后, 原映射超出文件末尾的部分不可再访问: 写入其中的数据不会进入文件,
 	// 超出末页时还会触发 SIGBUS. 因此截断前必须刷新并解除映射, 之后的读写会按需重新扩展并映射
@@ -119,6 +151,8 @@ func (m *MMap) ResetFileSize() error {
 }
 
 func (m *MMap) Truncate(size int64) error {
+	m.mu.Lock()
+	defer m.mu.Unlock()
 	verifhook.IO("truncate", m.file.Name(), size)
 	if size >= m.virtualSize {
 		return nil
@@ -132,7 +166,7 @@ func (m *MMap) Truncate(size int64) error {
 	return nil
 }
 
-// 如果有必要, 扩展映射区域
+// 如果有必要, 扩展映射区域. 调用方需持有写锁 (NewMMap 中尚无并发)
 func (m *MMap) remap(newBase int64, dataSize int) error {
 	// 如果映射区域已包含所需数据, 直接返回
 	if newBase+int64(dataSize) <= m.endOff {
